@@ -17,6 +17,12 @@ type progGen struct {
 	rng   *RNG
 	sigs  []predSig
 	names []string
+	// the last rule generated with at least one constraint, with its variable typing: a later
+	// rule may be its SIBLING (same head, same body, same number of constraints, other constraint
+	// content) - the usual way of writing a disjunction
+	last      *SRule
+	lastVars  map[string]int
+	lastOrder []string
 }
 
 var strPool = []string{"a", "b", "file1", "file2", "read", "write", "alice", "bob", "admin", ""}
@@ -254,6 +260,14 @@ func (g *progGen) exprs(vars map[string]int, order []string, errProne bool) []SE
 
 func (g *progGen) rule(errProne bool) SRule {
 	r := g.rng
+	if g.last != nil && r.Chance(18) {
+		for try := 0; try < 60; try++ {
+			es := g.exprs(g.lastVars, g.lastOrder, errProne)
+			if len(es) == len(g.last.Exprs) && fmt.Sprint(es) != fmt.Sprint(g.last.Exprs) {
+				return SRule{Head: g.last.Head, Body: g.last.Body, Exprs: es}
+			}
+		}
+	}
 	body, vars, order := g.body(3)
 	hs := g.sigs[r.Intn(len(g.sigs))]
 	if r.Chance(40) { // recursion: head predicate is one of the body predicates
@@ -280,7 +294,12 @@ func (g *progGen) rule(errProne bool) SRule {
 			head.Terms = append(head.Terms, g.constant(c))
 		}
 	}
-	return SRule{Head: head, Body: body, Exprs: g.exprs(vars, order, errProne)}
+	out := SRule{Head: head, Body: body, Exprs: g.exprs(vars, order, errProne)}
+	if len(out.Exprs) > 0 {
+		cp := out
+		g.last, g.lastVars, g.lastOrder = &cp, vars, order
+	}
+	return out
 }
 
 func (g *progGen) query(errProne bool) SRule {
